@@ -231,6 +231,143 @@ class NanSpace(_Base):
             self.one(out, rank, FUNCS[fi], a, "unit_desc", "EUCLIDEAN", self.mds[mi], self.chs[ci], cells)
 
 
+class TargetValuesSpace(_Base):
+    """explicit target_values (0 among them: the raster's background and any zero-filled halo become targets) x chunkings."""
+
+    def __init__(self, tier):
+        self.tvs = [[0.0], [0.0, 12.0], [15.0], [12.0, 15.0]]
+        self.lay = [(2, 5), (0, 11), (5,), (3, 8)]          # cells carrying 10+cell; everything else is 0
+        self.mds = [1.0, 1.5, 2.5, None]
+        self.chs = chunkings(*SHAPE)[1::2] if tier == "quick" else chunkings(*SHAPE)
+        self.cfgs = ["unit_desc", "unit_asc"]
+        self.radices = [len(FUNCS), len(self.tvs), len(self.lay), len(self.mds), len(self.cfgs), len(self.chs)]
+        self.name = "explicit_target_values_3x4"
+        self.size = int(np.prod(self.radices))
+        self.weight = 2.0
+
+    def describe(self, rank):
+        fi, ti, li, mi, gi, ci = unrank_product(rank, self.radices)
+        return {"function": FUNCS[fi], "target_values": self.tvs[ti], "nonzero_cells": self.lay[li], "max_distance": self.mds[mi],
+                "coords": self.cfgs[gi], "chunks": self.chs[ci]}
+
+    def run(self, lo, hi, out):
+        for rank in range(lo, hi):
+            fi, ti, li, mi, gi, ci = unrank_product(rank, self.radices)
+            a = layout_array(SHAPE, self.lay[li])
+            f, tv, md, cname, ch = FUNCS[fi], self.tvs[ti], self.mds[mi], self.cfgs[gi], self.chs[ci]
+            kw = {"target_values": list(tv)}
+            if md is not None:
+                kw["max_distance"] = md
+            ys, xs = self.coords(cname, SHAPE)
+            ref = np.asarray(self.fn[f](dataarray(a.copy(), ys, xs), **kw).values)
+            key = "c07|tv|%s|cells=%s|tv=%s|md=%s|%s|chunks=%s" % (f, list(self.lay[li]), tv, md, cname, ch)
+            try:
+                s = self.dx.ControlledScheduler((), "deps")
+                with self.dask.config.set(scheduler=s.get):
+                    val = np.asarray(self.fn[f](dataarray(a.copy(), ys, xs, chunks=ch), **kw).data.compute())
+            except Exception as e:
+                out.case(outcome=("exc", type(e).__name__), calls=1)
+                out.violation(rank, key, "Dask-backed %s raises %r" % (f, e), case=self.describe(rank))
+                continue
+            out.calls(s.tasks)
+            nr, nv = np.isnan(ref), np.isnan(val)
+            ok = np.array_equal(nr, nv) and bool(np.allclose(val[~nv], ref[~nr], rtol=1e-6, atol=1e-6))
+            ties = 0
+            if not ok and f != "proximity" and np.array_equal(nr, nv):
+                # equidistant targets: several cells carry the same target value 0, any nearest one may be named
+                D, B = self.tables(cname, "EUCLIDEAN", SHAPE)
+                tm = orc.target_mask(a, tv).ravel()
+                ok = True
+                for r, c in np.argwhere(~np.isclose(val, ref, rtol=1e-6, atol=1e-6, equal_nan=True)):
+                    i = r * SHAPE[1] + c
+                    d = np.where(tm, D[i], np.inf)
+                    near = np.flatnonzero(np.abs(d - d.min()) <= 1e-9 * max(1.0, d.min()))
+                    good = (any(abs(val[r, c] - a.flat[j]) < 1e-6 for j in near) if f == "allocation"
+                            else any(abs(val[r, c] - B[i, j]) < 1e-3 for j in near))
+                    if len(near) < 2 or not good:
+                        ok = False
+                        break
+                    ties += 1
+            out.case(outcome=(f, str(ch), val), nontrivial=len(ch[0]) * len(ch[1]) > 1, calls=1)
+            out.ok()
+            out.tie(ties)
+            if not ok:
+                out.violation(rank, key, "%s with target_values=%s differs from the NumPy result" % (f, tv), case=self.describe(rank),
+                              observed=val, expected=ref)
+
+
+class JointComputeSpace(_Base):
+    """several lazy proximity-family results (different functions / parameters / rasters with different coordinates)
+    computed together in ONE graph: each must still equal its own NumPy result."""
+
+    def __init__(self, tier):
+        self.chs = [((3,), (2, 2)), ((1, 2), (4,)), ((2, 1), (1, 3)), ((1, 1, 1), (2, 2))]
+        self.groups = ["functions_same_raster", "max_distance_same_halo", "target_values", "metrics", "different_coordinates"]
+        self.name = "joint_compute_proximity_family"
+        self.size = len(self.groups) * len(self.chs)
+        self.grain = 2
+        self.weight = 10.0
+
+    def describe(self, rank):
+        gi, ci = divmod(rank, len(self.chs))
+        return {"group": self.groups[gi], "chunks": self.chs[ci], "computed": "together in one dask.compute"}
+
+    def variants(self, group):
+        a = layout_array(SHAPE, (2, 9))
+        P, A, Dr = self.fn["proximity"], self.fn["allocation"], self.fn["direction"]
+        if group == "functions_same_raster":
+            return [("unit_desc", a, P, dict(max_distance=1.5)), ("unit_desc", a, A, dict(max_distance=1.5)),
+                    ("unit_desc", a, Dr, dict(max_distance=1.5))]
+        if group == "max_distance_same_halo":       # 2.0 and 2.4 give the same halo depth on unit cells
+            return [("unit_desc", a, P, dict(max_distance=2.0)), ("unit_desc", a, P, dict(max_distance=2.4)),
+                    ("unit_desc", a, P, dict(max_distance=1.6))]
+        if group == "target_values":
+            return [("unit_desc", a, P, dict(max_distance=2.0, target_values=[12.0])),
+                    ("unit_desc", a, P, dict(max_distance=2.0, target_values=[19.0])), ("unit_desc", a, P, dict(max_distance=2.0))]
+        if group == "metrics":
+            return [("unit_desc", a, P, dict(max_distance=2.0)), ("unit_desc", a, P, dict(max_distance=2.0, distance_metric="MANHATTAN"))]
+        return [("unit_desc", a, P, dict(max_distance=2.0)), ("nonsquare", a, P, dict(max_distance=2.0)),
+                ("xdesc_yasc", a, P, dict(max_distance=3.0)), ("unit_asc", a, Dr, dict(max_distance=2.0))]
+
+    def run(self, lo, hi, out):
+        for rank in range(lo, hi):
+            gi, ci = divmod(rank, len(self.chs))
+            group, ch = self.groups[gi], self.chs[ci]
+            vs = self.variants(group)
+            refs = []
+            for cname, a, f, kw in vs:
+                ys, xs = self.coords(cname, SHAPE)
+                refs.append(np.asarray(f(dataarray(a.copy(), ys, xs), **kw).values))
+            key = "c07|joint|%s|chunks=%s" % (group, ch)
+            try:
+                s = self.dx.ControlledScheduler((), "deps")
+                with self.dask.config.set(scheduler=s.get):
+                    shared = {}
+                    lazies = []
+                    for cname, a, f, kw in vs:
+                        if cname not in shared:       # the SAME Dask-backed DataArray object is reused within a coordinate system
+                            ys, xs = self.coords(cname, SHAPE)
+                            shared[cname] = dataarray(a.copy(), ys, xs, chunks=ch)
+                        lazies.append(f(shared[cname], **kw))
+                    vals = self.dask.compute(*[z.data for z in lazies])
+            except Exception as e:
+                out.case(outcome=("exc", type(e).__name__), calls=1)
+                out.violation(rank, key + "|raises", "joint compute raises %r" % (e,), case=self.describe(rank))
+                continue
+            out.calls(s.tasks)
+            for i, (val, ref) in enumerate(zip(vals, refs)):
+                val = np.asarray(val)
+                out.case(outcome=(group, i, str(ch), val), nontrivial=True, calls=1)
+                out.ok()
+                nr, nv = np.isnan(ref), np.isnan(val)
+                if not (np.array_equal(nr, nv) and np.allclose(val[~nv], ref[~nr], rtol=1e-6, atol=1e-6)):
+                    out.violation(rank, key + "|variant=%d" % i, "computed together with other proximity-family results, result %d of group "
+                                  "%s no longer equals its own NumPy result" % (i, group), case=dict(self.describe(rank), variant=i),
+                                  observed=val, expected=ref)
+            if out.want_sample():
+                out.sample(dict(self.describe(rank), results=len(vs), tasks=s.tasks))
+
+
 class ScheduleSpace(_Base):
     def __init__(self, tier):
         self.items = [("proximity", 1.5), ("allocation", 1.0), ("direction", None)]
@@ -323,6 +460,8 @@ def build(tier):
         HaloSpace(tier, "xdesc_yasc_cells_3x4", SHAPE, FUNCS, "xdesc_yasc", "EUCLIDEAN", [1.5, 3.0, 4.5], 1 if tier == "quick" else 2,
                   ch_stride=2 if tier == "quick" else 1),
         NanSpace(tier),
+        TargetValuesSpace(tier),
+        JointComputeSpace(tier),
         ScheduleSpace(tier),
         JitConformance(tier),
     ]
